@@ -9,7 +9,8 @@ Every line is a record with the same fields (TLC needs every accessed field to e
   n     value of a digits-only line (k = "num"), else 0
   b, e  begin / end in milliseconds (k = "timing"), else 0
   tv    1 iff minutes and seconds fields of both times are < 60 (k = "timing")
-  set   cue settings after the end time: [{"n": name, "v": value}...]; a setting without ':' has n = ""
+  set   cue settings after the end time: [{"n": name, "v": value, "v1000", "pct", "al"}...]; a setting without ':' has
+        n = ""; for numeric values v1000 = number * 1000, pct = 1 iff followed by '%', al = the word after ','  (else -1, 0, "")
   toks  tokens of the line (every kind, so that TLC can read a digits-only or timing-looking line as payload text)
   css   {"t": "sel"|"decl"|"close"|"other", "sel", "prop", "val"}: shape of the line when read inside a STYLE block
 token: {"k": "t", "cps": [...]}                       a run of ordinary characters
@@ -111,6 +112,25 @@ def _tokens(line, fmt):
   return toks
 
 
+_SET_NUM = re.compile(r"^(-?\d+)(?:\.(\d{1,3}))?(%?)(?:,([A-Za-z]+))?$")
+
+
+def _setting(s):
+  """One cue setting 'name:value' -> {"n", "v", "v1000": value * 1000 (or -1), "pct": 1 iff '%', "al": text after ','}."""
+  if ":" not in s:
+    return {"n": "", "v": s, "v1000": -1, "pct": 0, "al": ""}
+  a, b = s.split(":", 1)
+  rec = {"n": a, "v": b, "v1000": -1, "pct": 0, "al": ""}
+  m = _SET_NUM.match(b)
+  if m and len(m.group(1)) < 6:
+    frac = (m.group(2) or "").ljust(3, "0")
+    sign = -1 if m.group(1).startswith("-") else 1
+    rec["v1000"] = int(m.group(1)) * 1000 + sign * int(frac or 0)
+    rec["pct"] = 1 if m.group(3) else 0
+    rec["al"] = m.group(4) or ""
+  return rec
+
+
 def _split(text):
   lines = text.split("\n")
   eofnl = 1
@@ -134,6 +154,7 @@ def lex_srt(text):
     if m:
       g = m.groups()
       rec.update(k="timing", b=_ms(*g[0:4]), e=_ms(*g[4:8]), tv=1 if all(int(x) < 60 for x in (g[1], g[2], g[5], g[6])) else 0)
+      rec["toks"] = [t for t in rec["toks"] if t["k"] == "arrow"]     # the digits are in b / e
     elif ln.isascii() and ln.isdigit():
       rec.update(k="num", n=int(ln) if len(ln) < 9 else 999999999)
     else:
@@ -162,15 +183,10 @@ def lex_vtt(text):
       rec["css"] = {"t": "close", "sel": "", "prop": "", "val": ""}
     if m:
       g = m.groups()
-      sets = []
-      for s in (g[8] or "").split():
-        if ":" in s:
-          a, b = s.split(":", 1)
-          sets.append({"n": a, "v": b})
-        else:
-          sets.append({"n": "", "v": s})
+      sets = [_setting(s) for s in (g[8] or "").split()]
       rec.update(k="timing", b=_ms(*g[0:4]), e=_ms(*g[4:8]), set=sets,
                  tv=1 if all(int(x) < 60 for x in (g[1], g[2], g[5], g[6])) else 0)
+      rec["toks"] = [t for t in rec["toks"] if t["k"] == "arrow"]     # the digits are in b / e / set
     elif ln == "WEBVTT" or ln.startswith("WEBVTT ") or ln.startswith("WEBVTT\t"):
       rec["k"] = "header"
     elif ln == "STYLE":
